@@ -228,7 +228,11 @@ class VizierServicer(vizier_service_pb2_grpc.VizierServiceServicer):
       context: Optional[grpc.ServicerContext] = None,
   ) -> empty_pb2.Empty:
     """Deletes a Study."""
-    self.datastore.delete_study(request.name)
+    # Wait for in-flight suggestion / early stopping computations and trial
+    # updates of this study, which would otherwise write into a deleted study.
+    with self._operation_lock[request.name]:
+      with self._study_name_to_lock[request.name]:
+        self.datastore.delete_study(request.name)
     return empty_pb2.Empty()
 
   def SetStudyState(
@@ -323,35 +327,39 @@ class VizierServicer(vizier_service_pb2_grpc.VizierServiceServicer):
       output_op = operations_pb2.Operation(name=new_op_name, done=False)
       self.datastore.create_suggestion_operation(output_op)
 
-      # Check how many ACTIVE trials already exist for this client only.
-      all_trials = self.datastore.list_trials(study_name)
-      active_trials = [
-          t
-          for t in all_trials
-          if t.state == study_pb2.Trial.State.ACTIVE
-          and t.client_id == request.client_id
-      ]
-      if len(active_trials) >= request.suggestion_count:
-        output_op.response.value = vizier_service_pb2.SuggestTrialsResponse(
-            trials=active_trials[: request.suggestion_count],
-            start_time=start_time,
-        ).SerializeToString()
-        output_op.done = True
-        self.datastore.update_suggestion_operation(output_op)
-        return output_op
+      # Hold the study lock while reading and assigning trials, so that other
+      # trial-mutating RPCs (CreateTrial, DeleteTrial, UpdateMetadata, ...)
+      # cannot interleave with this read-modify-write sequence.
+      with self._study_name_to_lock[study_name]:
+        # Check how many ACTIVE trials already exist for this client only.
+        all_trials = self.datastore.list_trials(study_name)
+        active_trials = [
+            t
+            for t in all_trials
+            if t.state == study_pb2.Trial.State.ACTIVE
+            and t.client_id == request.client_id
+        ]
+        if len(active_trials) >= request.suggestion_count:
+          output_op.response.value = vizier_service_pb2.SuggestTrialsResponse(
+              trials=active_trials[: request.suggestion_count],
+              start_time=start_time,
+          ).SerializeToString()
+          output_op.done = True
+          self.datastore.update_suggestion_operation(output_op)
+          return output_op
 
-      # Get suggestions from the pool of requested trials.
-      output_trials = active_trials
-      requested_trials = [
-          t for t in all_trials if t.state == study_pb2.Trial.State.REQUESTED
-      ]
-      while requested_trials and request.suggestion_count > len(output_trials):
-        assigned_trial = requested_trials.pop()
-        assigned_trial.state = study_pb2.Trial.State.ACTIVE
-        assigned_trial.client_id = request.client_id
-        assigned_trial.start_time.CopyFrom(start_time)
-        self.datastore.update_trial(assigned_trial)
-        output_trials.append(assigned_trial)
+        # Get suggestions from the pool of requested trials.
+        output_trials = active_trials
+        requested_trials = [
+            t for t in all_trials if t.state == study_pb2.Trial.State.REQUESTED
+        ]
+        while requested_trials and request.suggestion_count > len(output_trials):
+          assigned_trial = requested_trials.pop()
+          assigned_trial.state = study_pb2.Trial.State.ACTIVE
+          assigned_trial.client_id = request.client_id
+          assigned_trial.start_time.CopyFrom(start_time)
+          self.datastore.update_trial(assigned_trial)
+          output_trials.append(assigned_trial)
 
       if len(output_trials) == request.suggestion_count:
         # We've finished collecting enough trials from the REQUESTED pool.
@@ -413,57 +421,60 @@ class VizierServicer(vizier_service_pb2_grpc.VizierServiceServicer):
           suggest_decision_proto
       )
 
-      # Write the metadata update to the datastore.
-      try:
-        self.datastore.update_metadata(
-            study_name,
-            svz.metadata_util.make_key_value_list(
-                suggest_decision.metadata.on_study
-            ),
-            svz.metadata_util.trial_metadata_to_update_list(
-                suggest_decision.metadata.on_trials
-            ),
-        )
-      except KeyError as e:
-        output_op.error.CopyFrom(
-            status_pb2.Status(code=code_pb2.Code.INTERNAL, message=str(e))
-        )
-        logging.exception(
-            'Failed to write metadata update to datastore: %s',
-            suggest_decision.metadata,
-        )
-        output_op.done = True
-        self.datastore.update_suggestion_operation(output_op)
-        return output_op
+      # The study lock makes the metadata write and the trial id allocation
+      # atomic w.r.t. SetStudyState, UpdateMetadata and CreateTrial.
+      with self._study_name_to_lock[study_name]:
+        # Write the metadata update to the datastore.
+        try:
+          self.datastore.update_metadata(
+              study_name,
+              svz.metadata_util.make_key_value_list(
+                  suggest_decision.metadata.on_study
+              ),
+              svz.metadata_util.trial_metadata_to_update_list(
+                  suggest_decision.metadata.on_trials
+              ),
+          )
+        except KeyError as e:
+          output_op.error.CopyFrom(
+              status_pb2.Status(code=code_pb2.Code.INTERNAL, message=str(e))
+          )
+          logging.exception(
+              'Failed to write metadata update to datastore: %s',
+              suggest_decision.metadata,
+          )
+          output_op.done = True
+          self.datastore.update_suggestion_operation(output_op)
+          return output_op
 
-      new_py_trials = [
-          decision.to_trial() for decision in suggest_decision.suggestions
-      ]
-      new_trials = svz.TrialConverter.to_protos(new_py_trials)
+        new_py_trials = [
+            decision.to_trial() for decision in suggest_decision.suggestions
+        ]
+        new_trials = svz.TrialConverter.to_protos(new_py_trials)
 
-      # If Pythia under-delivered, hand out what it produced.
-      while new_trials and request.suggestion_count > len(output_trials):
-        new_trial = new_trials.pop()
-        trial_id = self.datastore.max_trial_id(request.parent) + 1
-        new_trial.id = str(trial_id)
-        new_trial.name = TrialResource(owner_id, study_id, trial_id).name
-        new_trial.state = study_pb2.Trial.State.ACTIVE
-        new_trial.start_time.CopyFrom(start_time)
-        new_trial.client_id = request.client_id
-        self.datastore.create_trial(new_trial)
-        output_trials.append(new_trial)
+        # If Pythia under-delivered, hand out what it produced.
+        while new_trials and request.suggestion_count > len(output_trials):
+          new_trial = new_trials.pop()
+          trial_id = self.datastore.max_trial_id(request.parent) + 1
+          new_trial.id = str(trial_id)
+          new_trial.name = TrialResource(owner_id, study_id, trial_id).name
+          new_trial.state = study_pb2.Trial.State.ACTIVE
+          new_trial.start_time.CopyFrom(start_time)
+          new_trial.client_id = request.client_id
+          self.datastore.create_trial(new_trial)
+          output_trials.append(new_trial)
 
-      output_op.response.value = vizier_service_pb2.SuggestTrialsResponse(
-          trials=output_trials, start_time=start_time
-      ).SerializeToString()
+        output_op.response.value = vizier_service_pb2.SuggestTrialsResponse(
+            trials=output_trials, start_time=start_time
+        ).SerializeToString()
 
-      # Store remaining trials as REQUESTED if Pythia over-delivered.
-      for remain_trial in new_trials:
-        trial_id = self.datastore.max_trial_id(request.parent) + 1
-        remain_trial.id = str(trial_id)
-        remain_trial.name = TrialResource(owner_id, study_id, trial_id).name
-        remain_trial.state = study_pb2.Trial.State.REQUESTED
-        self.datastore.create_trial(remain_trial)
+        # Store remaining trials as REQUESTED if Pythia over-delivered.
+        for remain_trial in new_trials:
+          trial_id = self.datastore.max_trial_id(request.parent) + 1
+          remain_trial.id = str(trial_id)
+          remain_trial.name = TrialResource(owner_id, study_id, trial_id).name
+          remain_trial.state = study_pb2.Trial.State.REQUESTED
+          self.datastore.create_trial(remain_trial)
 
       output_op.done = True
       self.datastore.update_suggestion_operation(output_op)
@@ -626,7 +637,8 @@ class VizierServicer(vizier_service_pb2_grpc.VizierServiceServicer):
       )
       grpc_util.handle_exception(e, context)
 
-    self.datastore.delete_trial(request.name)
+    with self._study_name_to_lock[study_name]:
+      self.datastore.delete_trial(request.name)
     return empty_pb2.Empty()
 
   # TODO: This currently uses the same algorithm as suggestion.
@@ -773,15 +785,16 @@ class VizierServicer(vizier_service_pb2_grpc.VizierServiceServicer):
             early_stopping_decisions_proto
         )
         # Update metadata from result.
-        self.datastore.update_metadata(
-            study_name,
-            svz.metadata_util.make_key_value_list(
-                early_stopping_decisions.metadata.on_study
-            ),
-            svz.metadata_util.trial_metadata_to_update_list(
-                early_stopping_decisions.metadata.on_trials
-            ),
-        )
+        with self._study_name_to_lock[study_name]:
+          self.datastore.update_metadata(
+              study_name,
+              svz.metadata_util.make_key_value_list(
+                  early_stopping_decisions.metadata.on_study
+              ),
+              svz.metadata_util.trial_metadata_to_update_list(
+                  early_stopping_decisions.metadata.on_trials
+              ),
+          )
       # Pythia can raise any exception. Don't leave the operation ACTIVE.
       except Exception as e:  # pylint: disable=broad-except
         logging.exception(
@@ -974,11 +987,12 @@ class VizierServicer(vizier_service_pb2_grpc.VizierServiceServicer):
       grpc_util.handle_exception(e, context)
 
     try:
-      self.datastore.update_metadata(
-          request.name,
-          [x.metadatum for x in request.delta if not x.HasField('trial_id')],
-          [x for x in request.delta if x.HasField('trial_id')],
-      )
+      with self._study_name_to_lock[request.name]:
+        self.datastore.update_metadata(
+            request.name,
+            [x.metadatum for x in request.delta if not x.HasField('trial_id')],
+            [x for x in request.delta if x.HasField('trial_id')],
+        )
     except KeyError as e:
       return vizier_service_pb2.UpdateMetadataResponse(
           error_details=';'.join(e.args)
